@@ -23,7 +23,8 @@ RULE = ("Random dependency DAGs of 2..8 variables (independent RealInterval / Di
         "equals the reference evaluation of its formula on the same sample; samples of one call differ. Cyclic "
         "(self-loop, 2-cycle, long cycle) and dangling variants must raise ConfigError naming a participating symbol "
         "within 10 s. Non-trivial iff dependency depth >= 2 with a non-topological declaration order, or a diamond, or "
-        "a numbered instance feeding a dependent, or a cyclic/dangling variant. Distinct by spec hash.")
+        "a numbered instance feeding a dependent, or a cyclic/dangling variant. Distinct by spec hash."
+        " 'siblings' (exhaustive): ordered ListGraders whose subgrader refers to another box (sibling_k) in comparer parameters, a declared variable's DependentSampler and/or a numbered base name's DependentSampler. In the dags part the sampler objects are, in most valid cases, used before by another grader (inputs as constants) and in other declaration orders.")
 ASSUMPTIONS = ["dependent formulas use total functions; ill-conditioned or >1e12 reference evaluations are discarded",
                "a numbered instance used inside a dependent formula also occurs in the graded expressions (otherwise "
                "the library reports it as an undefined dependency, which the property allows)"]
